@@ -9,7 +9,7 @@ not run). Every expression node carries its OAL type in node.sem.
 from vf import bpsynth as bp
 from vf import oalmodel as om
 
-INT, STR, BOOL, REAL, ENUM, VOID = 'integer', 'string', 'boolean', 'real', 'Color', 'void'
+INT, STR, BOOL, REAL, ENUM, ENUM2, VOID = 'integer', 'string', 'boolean', 'real', 'Color', 'Mood', 'void'
 
 CLASSES = {
     'A': [('Id', 'unique_id'), ('N', INT), ('S', STR), ('F', BOOL), ('Next_Id', None), ('Hue', ENUM)],
@@ -33,13 +33,14 @@ CLASS_OPS = {'cop_int': (INT, [('num', INT)]), 'cop_void': (VOID, [])}
 INST_OPS = {'iop_int': (INT, [('num', INT), ('txt', STR)]), 'iop_void': (VOID, []), 'iop_bool': (BOOL, [('flag', BOOL)])}
 HOME_PARAMS = [('p_int', INT), ('p_str', STR), ('p_bool', BOOL)]
 ENUMERATORS = ['Red', 'Green', 'Blue']
+ENUMERATORS2 = ['Blue', 'Happy', 'Red']        # shares names with Color on purpose
 CONSTS = [('C_INT', INT, '42'), ('C_STR', STR, 'hello'), ('C_BOOL', BOOL, 'true')]
 HOMES = ('function', 'bridge', 'operation', 'derived')
 
 
 def diagram():
     d = bp.Diagram()
-    d.enums = [('Color', list(ENUMERATORS), 'pkg')]
+    d.enums = [('Color', list(ENUMERATORS), 'pkg'), ('Mood', list(ENUMERATORS2), 'pkg')]
     d.udts = [('Count_t', 'integer', 'pkg')]
     ops = [bp.Callable_(n, r, p, '', False) for n, (r, p) in CLASS_OPS.items()]
     ops += [bp.Callable_(n, r, p, '', True) for n, (r, p) in INST_OPS.items()]
@@ -111,8 +112,15 @@ class Gen(object):
         self.has_params = home != 'derived'
         self.features = features    # None: everything
         self.decl_block = {}        # variable name -> statement node that declares it (for C06)
+        self.retired = []           # names whose block has ended: free to be declared again
 
     def fresh(self, p='v'):
+        # a name whose declaring block has ended may be declared again (possibly with another type)
+        free = [n for n in self.retired if self.lookup(n) is None]
+        if free and self.rng.random() < 0.35:
+            n = self.rng.choice(free)
+            self.retired.remove(n)
+            return n
         self.counter += 1
         return '%s%d' % (p, self.counter)
 
@@ -204,6 +212,8 @@ class Gen(object):
             return T(om.real(r.choice(('1.5', '0.25', '10.0'))), REAL)
         if ty == ENUM:
             return T(om.enum('Color', r.choice(ENUMERATORS)), ENUM)
+        if ty == ENUM2:
+            return T(om.enum('Mood', r.choice(ENUMERATORS2)), ENUM2)
         raise AssertionError(ty)
 
     def expr(self, ty, depth=2, selected_kind=None):
@@ -233,7 +243,7 @@ class Gen(object):
             arrs = self.vars_of(lambda t: t == ('array', ty))
             if arrs:
                 return T(om.index(T(om.var(r.choice(arrs)[0]), ('array', ty)), T(om.integer(r.randint(0, 2)), INT)), ty)
-        if depth <= 0 or k < 0.72 or ty in (REAL, ENUM):
+        if depth <= 0 or k < 0.72 or ty in (REAL, ENUM, ENUM2):
             return self.literal(ty)
         if ty == INT:
             op = r.choice(('+', '-', '*', '/', '%', 'neg', 'card'))
@@ -247,7 +257,7 @@ class Gen(object):
             return T(om.binary(op, self.expr(INT, depth - 1, selected_kind), self.expr(INT, depth - 1, selected_kind)), INT)
         if ty == STR:
             return T(om.binary('+', self.expr(STR, depth - 1, selected_kind), self.expr(STR, depth - 1, selected_kind)), STR)
-        op = r.choice(('cmp', 'cmp', 'and', 'or', 'not', 'empty', 'streq', 'enumeq'))
+        op = r.choice(('cmp', 'cmp', 'and', 'or', 'not', 'empty', 'streq', 'enumeq', 'enumeq2'))
         if op == 'cmp':
             return T(om.binary(r.choice(('<', '<=', '==', '!=', '>=', '>')), self.expr(INT, depth - 1, selected_kind),
                                self.expr(INT, depth - 1, selected_kind)), BOOL)
@@ -261,6 +271,8 @@ class Gen(object):
                                self.expr(STR, depth - 1, selected_kind)), BOOL)
         if op == 'enumeq':
             return T(om.binary('==', self.expr(ENUM, 0, selected_kind), self.literal(ENUM)), BOOL)
+        if op == 'enumeq2':
+            return T(om.binary('!=', self.expr(ENUM2, 0, selected_kind), self.literal(ENUM2)), BOOL)
         hs = self.vars_of(lambda t: isinstance(t, tuple) and t[0] in ('inst', 'set'))
         if hs:
             return T(om.unary(r.choice(('empty', 'not_empty')), self.handle(r.choice(hs)[0])), BOOL)
@@ -276,7 +288,8 @@ class Gen(object):
                 out.append(s)
                 if s.cls in ('BreakNode', 'ContinueNode', 'ReturnNode', 'ControlNode'):
                     break
-        self.scopes.pop()
+        gone = self.scopes.pop()
+        self.retired.extend(gone)
         return out
 
     def declare(self, name, ty, stmt=None):
@@ -296,7 +309,7 @@ class Gen(object):
             kinds += ['break', 'continue']
         k = r.choice(kinds)
         if k == 'assign':
-            ty = r.choice((INT, INT, STR, BOOL, REAL, ENUM))
+            ty = r.choice((INT, INT, STR, BOOL, REAL, ENUM, ENUM2))
             vs = self.vars_of(lambda t: t == ty)
             if vs and r.random() < 0.4:
                 name = r.choice(vs)[0]
